@@ -22,6 +22,13 @@ def check(ctx):
     unit = parser_funnel.extend(unit, ctx.scratch.dir)
     ctx.verus_unit(unit, finder=LEX_FINDERS)
     parser_funnel.frame_scan_line(ctx, ctx.scratch.dir)
+    # the recursive descent: parse_element terminates (recursion and loop decrease the lexer's measure) and reaches no panic site of its own
+    from contracts import parseelem
+    from vxlib.rustsrc import Lost
+    try:
+        ctx.verus_unit(parseelem.make_unit(ctx.scratch.dir), finder=None)
+    except Lost as e:
+        ctx.undecided.append('parseelem reason=lost anchor: %s' % e)
     maxlen = 8 if thorough else 6
     ctx.kani('autosar-data', [dict(name='trim_len%d' % n, module='parser', kind='bounded', bound='input length == %d, all byte values' % n,
                                   timeout=120, desc='unmodified trim_byte_string against the executable contract (cross-check of the desugared Verus text)', covers_optional=(n < 2))
